@@ -8,6 +8,11 @@ fn main() {
         std::process::exit(3);
     }
     let id = args[1].as_str();
+    if id == "c14shard" {
+        let tier = if args[2] == "thorough" { Tier::Thorough } else { Tier::Quick };
+        let p = |i: usize| args[i].parse::<u64>().unwrap_or(0);
+        std::process::exit(vh::c14pool::shard_main(tier, p(3), p(4) as usize, p(5) as usize));
+    }
     if id == "serve" {
         std::process::exit(vh::c06::serve(&args[2]));
     }
@@ -36,6 +41,7 @@ fn main() {
             "C05" => vh::c05::replay(&ctx, &w),
             "C06" => vh::c06::replay(&ctx, &w),
             "C07" => vh::c07::replay(&ctx, &w),
+            "C14" => vh::c14::replay(&ctx, &w),
             "C17" => vh::c17::replay(&ctx, &w),
             _ => {
                 eprintln!("no replay for {}", id);
@@ -51,6 +57,7 @@ fn main() {
             "C05" => vh::c05::main(&ctx),
             "C06" => vh::c06::main(&ctx),
             "C07" => vh::c07::main(&ctx),
+            "C14" => vh::c14::main(&ctx),
             "C17" => vh::c17::main(&ctx),
             _ => {
                 eprintln!("unknown property {}", id);
